@@ -227,6 +227,10 @@ def check_point(pt, only=None):
     if kind == "single":
         short = [[(sites[pt[2]], j)] for j in junk_strings(pt[3], 2 if pt[3] == 3 else 3)]
         longc = [[(sites[pt[2]], j)] for j in LONG]
+        # many junk lines in one section: the same unparsable / parsable line 2, 19..23, 40 and 100 times at this site
+        for j in ("junk", ":", "1.2.3.4:5:6", "a b c d e f g h", "Z9. 1 : parsable"):
+            for rep in (2, 19, 20, 21, 22, 23, 40, 100):
+                longc.append([(sites[pt[2]], j)] * rep)
     else:
         js = junk_strings(1)
         if pt[4] >= 2:
